@@ -213,6 +213,7 @@ class HWorld:
             fail_set=(int(fw[0]), bool(fw[1]), fw[2] if len(fw) > 2 else "E") if fw else None,
             fail_del=(int(fd[0]), bool(fd[1])) if fd else None,
             withhold=wh,
+            fail_get=(int(cmd["fr"][0]), cmd["fr"][1]) if cmd.get("fr") else None,
         )
 
     def disarm(self):
@@ -220,7 +221,7 @@ class HWorld:
         sets, dels = db.disarm()
         if db.fired is not None:
             kind, n, applied = db.fired
-            name = ("write" if kind == "set" else "delete") + ("-fail-applied" if applied else "-fail-not-applied")
+            name = "read-fail" if kind == "get" else ("write" if kind == "set" else "delete") + ("-fail-applied" if applied else "-fail-not-applied")
             self.st.fault(name)
             self.fired.append(name)
             db.fired = None
